@@ -21,7 +21,7 @@ Init == /\ out = <<>> /\ pc = "in"
                                            ratio : {NONE, <<1, 2>>}, strict : BOOLEAN, b2 : {<<1, 1>>, <<4, 1>>}]
              [] Kind = "aor" -> inp \in [ref : (SeqsUpTo(Note, N) \ {<<>>}), est : (SeqsUpTo(Note, N) \ {<<>>}), m : SUBSET ((1..N) \X (1..N))]
                                 /\ IsMatching(inp.m, (1..Len(inp.ref)) \X (1..Len(inp.est)))
-             [] Kind = "tempo" -> inp \in [r1 : {0, 60, 100}, r2 : {0, 120, 180}, e1 : {0, 57, 63, 100, 108, 120}, e2 : {0, 110, 120, 130, 194},
+             [] Kind = "tempo" -> inp \in [r1 : {0, 60, 100}, r2 : {0, 110, 120, 180}, e1 : {0, 57, 63, 96, 100, 104, 108, 120}, e2 : {0, 96, 104, 110, 120, 130, 194},
                                            wgt : {<<0, 1>>, <<1, 4>>, <<1, 1>>}, tol : {<<0, 1>>, <<1, 20>>, <<2, 25>>, <<1, 1>>}]
                                   /\ (inp.r1 > 0 \/ inp.r2 > 0)
              [] Kind = "align" -> inp \in [ref : (SortedSeqs(0..P, N) \ {<<>>}), est : (SortedSeqs(0..P, N) \ {<<>>}), w : W, dur : {0, P + 1}]
